@@ -515,6 +515,9 @@ def gen_valid(rng, n_actions=None, threads=False, builder=False):
 
 
 # ----------------------------------------------------------------------------------------------- rendering
+RENDER_HOOKS = []     # extensions (e.g. pipelines): functions (renderer, doc) -> None that add to the document
+
+
 class Renderer:
     """Scenario -> JSON document.  `spell(kind, id)` decides id vs alias spelling per occurrence."""
 
@@ -653,8 +656,10 @@ class Renderer:
                 if g["dep"] is not None:
                     e["depends_on"] = self.ref(g["dep"])
                 doc["thread_groups"].append(e)
+        for hook in RENDER_HOOKS:
+            hook(self, doc)
         if self.shuffle:
-            for k in ("parties", "object_types", "object_promises", "actions", "checkpoints", "thread_groups"):
+            for k in ("parties", "object_types", "object_promises", "actions", "checkpoints", "thread_groups", "pipelines"):
                 if k in doc:
                     rng.shuffle(doc[k])
             keys = list(doc.keys())
